@@ -686,6 +686,10 @@ func (x *Exec) dryRun(st *State, f func(s *State) []*State) (vars map[types.Obje
 	x.vc.silent++
 	x.dryDepth++
 	savedLoops, savedFrames := x.loops, x.frames
+	retLens := make([]int, len(x.frames))
+	for i, f := range x.frames {
+		retLens[i] = len(f.rets)
+	}
 	savedOrd := map[string]int{}
 	for k, v := range x.ord {
 		savedOrd[k] = v
@@ -697,6 +701,9 @@ func (x *Exec) dryRun(st *State, f func(s *State) []*State) (vars map[types.Obje
 		x.vc.assumes = x.vc.assumes[:na]
 		_ = nf
 		x.loops, x.frames = savedLoops, savedFrames
+		for i, f := range x.frames {
+			f.rets = f.rets[:retLens[i]]
+		}
 		x.ord = savedOrd
 	}()
 	s0 := st.clone()
@@ -725,6 +732,7 @@ func (x *Exec) havocVar(st *State, o types.Object) {
 	switch st.vars[o].(type) {
 	case Term, *StructV:
 		st.vars[o] = x.freshValue(o.Type(), o.Name())
+		x.assumeTypeInv(st.vars[o], o.Type(), st)
 	}
 }
 
